@@ -101,8 +101,16 @@ PathBr(p, ak) == BSum([j \in 1..Len(p) |-> CtrBr(p[j], ak)])
 \* 4 ChordEqRxV:  the same after a quarter turn: vertical chord equal to the major radius, major axis along y
 \* 8 ChordEqRxP:  the same after the rotation by atan(3/4) that maps (4,-3) to (5,0): circular arc whose chord is parallel
 \*                to (4,-3) and as long as the radius
+\* 16 TurnsBack:  Bezier whose control polygon turns back: two of its legs enclose more than 90 degrees (or a leg is
+\*                zero); for a quadratic: the angle at the control point is acute
 SegFeat(a, g, ak) ==
-    IF g.k # "A" THEN 0 ELSE
+    IF g.k = "L" THEN 0
+    ELSE IF g.k = "Q" THEN (IF DotP(g.c1, a, g.p) > 0 THEN 16 ELSE 0)
+    ELSE IF g.k = "C" THEN
+        LET u == PSub(g.c1, a) v == PSub(g.c2, g.c1) w == PSub(g.p, g.c2)
+            dot(x, y) == x[1] * y[1] + x[2] * y[2]
+        IN IF u = Z2 \/ v = Z2 \/ w = Z2 \/ dot(u, v) < 0 \/ dot(v, w) < 0 \/ dot(u, w) < 0 THEN 16 ELSE 0
+    ELSE
     LET rx == g.c2[1] ry == g.c2[2]
         ecc == MaxI(rx, ry) >= 2 * MinI(rx, ry) /\ (g.lg = 1 \/ ArcTurn(a, g) = 0)
         h == g.rot = 0 /\ rx >= ry /\ a[2] = g.p[2] /\ Abs(a[1] - g.p[1]) = rx
@@ -111,10 +119,11 @@ SegFeat(a, g, ak) ==
     IN (IF ecc THEN 1 ELSE 0) + (IF h THEN 2 ELSE 0) + (IF v THEN 4 ELSE 0) + (IF pp THEN 8 ELSE 0)
 \* LineReversal: two consecutive straight edges of a contour (the closing edge included) are collinear and point in
 \* opposite directions (a spike); the builder's LineTo mishandles some of them (DESIGN #6)
-Spike(c) == LET d == [i \in 1..Len(c.segs) |-> <<SegStart(c, i), c.segs[i]>>] \o (IF ClosingEdge(c) THEN <<<<EndPt(c), Ln(c.s)>>>> ELSE <<>>)
-            IN \E i \in 1..(Len(d) - 1) : /\ d[i][2].k = "L" /\ d[i + 1][2].k = "L"
-                                          /\ Cross(d[i][1], d[i][2].p, d[i + 1][2].p) = 0
-                                          /\ DotP(d[i][2].p, d[i][1], d[i + 1][2].p) > 0
+Tips(c) == LET d == [i \in 1..Len(c.segs) |-> <<SegStart(c, i), c.segs[i]>>] \o (IF ClosingEdge(c) THEN <<<<EndPt(c), Ln(c.s)>>>> ELSE <<>>)
+           IN {d[i][2].p : i \in {m \in 1..(Len(d) - 1) : /\ d[m][2].k = "L" /\ d[m + 1][2].k = "L"
+                                                           /\ Cross(d[m][1], d[m][2].p, d[m + 1][2].p) = 0
+                                                           /\ DotP(d[m][2].p, d[m][1], d[m + 1][2].p) > 0}}
+PathTips(p) == SetToSeq(UNION {Tips(p[j]) : j \in 1..Len(p)})       \* the tips of the spikes
 \* per contour, per segment: <<lo, hi, feature bits>>
 SegTab(p, ak) == [j \in 1..Len(p) |-> [i \in 1..Len(p[j].segs) |->
                     LET a == SegStart(p[j], i) g == p[j].segs[i] b == SegBr(a, g, ak) IN <<b[1], b[2], SegFeat(a, g, ak)>>]]
@@ -270,12 +279,12 @@ FracSeq(rw) == LET m == 1 + (rw[1] % 3)
 \* ---- the machine -------------------------------------------------------------------------------------------------------
 VARIABLES scn,      \* the scenario: [seed, path, ak, rw]
           reg,      \* the register
-          nrev,     \* number of Reverse actions applied
+          nrev,     \* number of Reverse actions applied (-1: the scenario is not loaded yet)
           done
 vars == <<scn, reg, nrev, done>>
 
 AkOf(a) == IF Mode = "chord" THEN ChordCtr(a)[2] ELSE 0
-ScnChoice == {[seed |-> s, path |-> MkPath(Vec(s, 0), Vec(s, 1), Vec(s, 2)), ak |-> AkOf(Vec(s, 0)), rw |-> Vec(s, 3)] : s \in RandomSubset(Num, Seeds)}
+MkScn(s) == [seed |-> s, path |-> MkPath(Vec(s, 0), Vec(s, 1), Vec(s, 2)), ak |-> AkOf(Vec(s, 0)), rw |-> Vec(s, 3)]
 ScnOK(s) == IF Mode = "chord" THEN \A j \in 1..Len(s.path) : Len(s.path[j].segs) > 0 ELSE PathOK(s.path)
 
 Scenario ==
@@ -284,18 +293,20 @@ Scenario ==
         pd == IF poly THEN PolyData(p) ELSE [pts |-> <<>>, cum |-> <<>>, off |-> <<0>>]
         cuts == IF poly THEN CutSeq(pd, scn.rw) ELSE <<>>
     IN [mode |-> Mode, seed |-> scn.seed, path |-> p, ak |-> ak, ld |-> LD, br |-> PathBr(p, ak), segs |-> SegTab(p, ak),
-        spike |-> \E j \in 1..Len(p) : Spike(p[j]),
+        tips |-> PathTips(p),
         way |-> PathWay(p, ak), rev |-> r, revway |-> PathWay(r, ak),
         rows |-> IF Mode = "curves" THEN WindRows(p, r) ELSE <<>>,
         cuts |-> cuts, total2 |-> 2 * pd.off[Len(pd.off)],
         pieces |-> IF poly THEN SplitExp(pd, ToSet(cuts)) ELSE <<>>,
         fr |-> IF poly THEN <<>> ELSE FracSeq(scn.rw)]
 
-Init == scn \in ScnChoice /\ reg = scn.path /\ nrev = 0 /\ done = FALSE
+\* the scenario is expanded from its seed by the first action (so that TLC's workers share that work)
+Init == scn \in {[seed |-> s, path |-> <<>>, ak |-> 0, rw |-> <<>>] : s \in RandomSubset(Num, Seeds)} /\ reg = <<>> /\ nrev = -1 /\ done = FALSE
+Load == nrev = -1 /\ scn' = MkScn(scn.seed) /\ reg' = scn'.path /\ nrev' = 0 /\ UNCHANGED done
 Emit == ~done /\ nrev = 0 /\ done' = TRUE /\ UNCHANGED <<scn, reg, nrev>> /\ ScnOK(scn) /\ PrintT("@@" \o ToJson(Scenario))
-Rev  == nrev < 2 /\ ScnOK(scn) /\ reg' = RevPath(reg) /\ nrev' = nrev + 1 /\ UNCHANGED <<scn, done>>
-GenSpec == Init /\ [][Emit]_vars
-Spec == Init /\ [][Emit \/ Rev]_vars
+Rev  == 0 <= nrev /\ nrev < 2 /\ ScnOK(scn) /\ reg' = RevPath(reg) /\ nrev' = nrev + 1 /\ UNCHANGED <<scn, done>>
+GenSpec == Init /\ [][Load \/ Emit]_vars
+Spec == Init /\ [][Load \/ Emit \/ Rev]_vars
 
 Header == [hdr |-> TRUE, ld |-> LD, fams |-> Fams, ring |-> Ring, gaps |-> GapTab]
 ASSUME PrintT("@@" \o ToJson(Header))
@@ -316,7 +327,7 @@ GapTabOK == /\ Len(GapTab) = Len(Fams)
 ASSUME GapTabOK
 
 \* (1) the length bracket is a bracket and it is tight (well inside the 1.5 % acceptance band)
-BracketOK == LET b == PathBr(scn.path, scn.ak) IN ScnOK(scn) => (0 < b[1] /\ b[1] <= b[2] /\ (b[2] - b[1]) * 200 <= b[2] + 200 * 64)
+BracketOK == LET b == PathBr(scn.path, scn.ak) IN (nrev >= 0 /\ ScnOK(scn)) => (0 < b[1] /\ b[1] <= b[2] /\ (b[2] - b[1]) * 200 <= b[2] + 200 * 64)
 \* (2) Reverse: involution on the abstract command list (normal form), closedness kept, contour order reversed,
 \*     way-points reversed, length bracket unchanged, winding number negated at every decided sample point
 Involution == (nrev = 2 /\ ScnOK(scn)) => reg = [j \in 1..Len(scn.path) |-> NF(scn.path[j])]
